@@ -71,7 +71,9 @@ Judge_canon(c) ==
                          \A i \in 1..Len(c.enc) :
                             LET e == c.enc[i] IN
                             /\ ResOk(P.t, P.st.names, P2.t, P2.st.names, e.bytes, e.back2)
-                            /\ ResOk(P2.t, P2.st.names, P.t, P.st.names, e.bytes, e.back3)) >>
+                            /\ ResOk(P2.t, P2.st.names, P.t, P.st.names, e.bytes, e.back3)
+                            /\ ("back4" \in DOMAIN e =>
+                                  LET V == Parse(c.variants[1].schema) IN V.ok => ResOk(P.t, P.st.names, V.t, V.st.names, e.bytes, e.back4))) >>
 
 \* op = "fingerprint": c.text (code points), c.alg (text), c.res = [ok, hex (text)] | [ok |-> FALSE, exc], c.known << [name, hex] >> (hashlib digests of the UTF-8 bytes)
 A_RABIN == Cps("CRC-64-AVRO")
